@@ -97,7 +97,7 @@ def run_exchange(req, resp, max_rounds=60):
             if beta.responses:
                 break
             idle = idle + 1 if before == after else 0
-            if idle >= 4:
+            if idle >= 12:
                 break
     except Exception as ex:
         error = "%s: %s" % (type(ex).__name__, ex)
